@@ -666,7 +666,7 @@ def run_eval(lines, tag="c08"):
         fh.write("\n".join(lines) + "\n")
     rc, out, err = vlib.harness_run("geom", ["eval", "--file", path])
     os.remove(path)
-    return [l for l in out.split("\n") if l.startswith("pair ") or l.startswith("set ") or l.startswith("seq ")]
+    return [l for l in out.split("\n") if l.startswith("pair ") or l.startswith("set ") or l.startswith("seq ") or l.startswith("sseq ")]
 
 
 def eval_pair(a, b, cfg="replay"):
